@@ -125,12 +125,14 @@ def configs(tier, seed):
         rs = RUNG_SYSTEMS[rs_name]
         levels = rung_levels(**rs)
         for mode in ("min", "max"):
-            for brackets, per_bracket in ((1, False), (2, False), (2, True)):
+            for brackets, per_bracket in ((1, False), (2, False), (2, True), (3, False)):
                 for typ in ("promotion", "pasha", "cost_promotion", "rush_promotion"):
                     if typ == "rush_promotion" and (brackets > 1 or mode == "max"):
                         continue
                     if tier == "quick" and brackets > 1 and typ == "cost_promotion":
                         continue
+                    if brackets == 3 and (len(levels) < 3 or typ in ("pasha", "rush_promotion") or (tier == "quick" and mode == "max")):
+                        continue   # three brackets need three rung levels (a bracket's first milestone above a promotion target)
                     T = 4 if brackets == 1 else 3
                     W = 2
                     if tier == "thorough" and brackets == 1:
